@@ -112,8 +112,10 @@ def mech(kind, w):
             in_dtype == "category" and "<null>" in cont.get("values", []):
         return "numpy-bool-coerce-of-categorical-with-null-yields-object"
     if cls.startswith("pandas_engine.Python"):
-        if kind in S2_KINDS and empty:
-            return "python-generic-coerce-of-empty-container-keeps-dtype"
+        allnull = all(v == "<null>" for v in cont.get("values", []) + cont.get("values2", []))
+        if kind in S2_KINDS + ("not-idempotent",) and (empty or allnull):
+            # Series.map over nothing / only nulls does not produce object dtype
+            return "python-generic-coerce-of-empty-or-all-null-container-keeps-dtype"
         if kind == "failure-cases-differ-from-unconvertible-elements" and \
                 not w.get("reported") and w.get("expected"):
             return "python-generic-failure-cases-report-coerced-na"
